@@ -6,6 +6,8 @@ import CM.Proofs.ParseAsmCoverEx
 import CM.Proofs.ParseAsmScanCovMain
 import CM.Proofs.ParseAsmScanCovStrip2
 import CM.Proofs.ParseAsmScanCovStrip3
+import CM.Proofs.ParseAsmScanCovLabelEx
+import CM.Proofs.ParseAsmScanCovLabel2
 /-
 C03, inline half - "nothing lost": every letter, digit and non-ASCII byte of the unparsed runs handed to Rewrite is covered by a
 leaf of the result (20 proof files `InlCover*`: a fourth spec chain carrying the span invariant and a coverage frontier together;
@@ -67,5 +69,10 @@ theorem stripCodeSpanSpace_keeps_coverage : type_of% @CM.Proofs.PSc.stripCov := 
 theorem blockphase_code_coverage : type_of% @CM.Proofs.PSc.blockphase_code := @CM.Proofs.PSc.blockphase_code
 theorem parse_cover_of_parseTails_of_three : type_of% @CM.Proofs.PSc.parse_cover_of_parseTails_of_three :=
   @CM.Proofs.PSc.parse_cover_of_parseTails_of_three
+
+/-- Shared prerequisite of the three remaining fields, for paragraph and setext-heading containers of block-phase trees: the text
+    nodes `collectTextNodes` gathers between two positions cover every needed byte of the runs between them (these containers still
+    meet the block phase's own reader context, so the block-phase collect theorem is reused; ATX headings need a one-run argument). -/
+theorem blockphase_collect_covers : type_of% @CM.Proofs.PSc.blockphase_collect_CovTs := @CM.Proofs.PSc.blockphase_collect_CovTs
 
 end CM.Props.C03
